@@ -310,6 +310,10 @@ func genCase(rng *rand.Rand) Case {
 	if cfg.Persistent && rng.Intn(4) == 0 {
 		applyStorageFault(rng, &cs)
 	}
+	// a backend call that outlasts the per-attempt timeout and ignores its context: Shutdown still has to wait for it
+	if cs.Slow && !cs.Cfg.NoTimeout && cs.Fault == "" && rng.Intn(2) == 0 {
+		cs.Cfg.TimeoutMS = 1 + rng.Intn(3)
+	}
 	return cs
 }
 
@@ -576,7 +580,7 @@ func runCase(c *driver.Ctx, cs Case, backends *[]*expkit.Backend) (res outcome, 
 			if gate == nil {
 				return
 			}
-			if cs.ShutCtx != CtxBackground {
+			if cs.ShutCtx != CtxBackground || cfg.TimeoutMS > 0 {
 				// give Shutdown the chance to return early: keep the exports held until it has returned or is
 				// parked inside the helper (state inspection, bounded; only steering)
 				for try := 0; try < 300 && log.Count(expkit.EvShutRet) == 0; try++ {
@@ -692,6 +696,14 @@ func runCase(c *driver.Ctx, cs Case, backends *[]*expkit.Backend) (res outcome, 
 			runtime.Gosched()
 		}
 
+		if cfg.TimeoutMS > 0 && gate != nil {
+			// let the per-attempt timeout of the held exports expire before Shutdown is requested (steering only)
+			for try := 0; try < 400 && be.Inflight() == 0; try++ {
+				time.Sleep(50 * time.Microsecond)
+			}
+			time.Sleep(time.Duration(cfg.TimeoutMS+3) * time.Millisecond)
+			c.Observe("shutdown_with_exports_held_beyond_their_timeout", 1)
+		}
 		if cs.ShutCtx == CtxDeadline {
 			var cf context.CancelFunc
 			shutCtx, cf = context.WithTimeout(context.Background(), time.Duration(1+h32(caseTag)%3)*time.Millisecond)
